@@ -544,20 +544,44 @@ theorem gatherN_live (s : Ev) (size : Nat) (rep : List Nat) (G : Nat) (hrep : Re
         exact ⟨by simp, fun _ => ⟨a, b, by rw [c, fw.semGen], by rw [d, fw.W]⟩⟩
       · simp
 
+theorem gatherN_noJobs (s : Ev) (size : Nat) (rep : List Nat) (h : s.running ≠ []) :
+    (gatherN s size rep).2 ≠ some .noJobs := by
+  unfold gatherN
+  simp only [h, if_false]
+  split
+  · simp
+  · split
+    · simp
+    · split <;> simp
+
+theorem gatherN_rep_len (s : Ev) (size : Nat) (rep : List Nat) (h : (gatherN s size rep).2 = none) :
+    min size s.running.length ≤ rep.length := by
+  unfold gatherN at h
+  simp only at h
+  split at h
+  · simp at h
+  · split at h
+    · simp at h
+    · split at h
+      · simp at h
+      · next hc => omega
+
 theorem submitCap_spec : ∀ (k : Nat) (s : Ev), ∃ extra : List Job,
     (submitCap s k).1.jobs = s.jobs ++ extra ∧ (∀ j ∈ extra, j.pc = .created ∧ j.gen = 0) ∧
     extra.length ≤ k ∧ (submitCap s k).1.running.length = s.running.length + extra.length ∧
-    (submitCap s k).1.W = s.W ∧ (submitCap s k).1.semGen = s.semGen
+    (submitCap s k).1.W = s.W ∧ (submitCap s k).1.semGen = s.semGen ∧
+    ((submitCap s k).2 = false → extra.length = k)
   | 0, s => ⟨[], by simp [submitCap]⟩
   | k + 1, s => by
     simp only [submitCap]
     split
     · exact ⟨[], by simp⟩
-    · obtain ⟨extra, h1, h2, h3, h4, h5, h6⟩ := submitCap_spec k
+    · obtain ⟨extra, h1, h2, h3, h4, h5, h6, h7⟩ := submitCap_spec k
         { s with jobs := s.jobs ++ [{ spec := (s.specs[s.jobs.length]?).getD { m := 0, p := 0 } }],
                  running := s.running ++ [s.jobs.length] }
-      simp only at h1 h4 h5 h6
-      refine ⟨({ spec := (s.specs[s.jobs.length]?).getD { m := 0, p := 0 } } : Job) :: extra, ?_, ?_, ?_, ?_, h5, h6⟩
+      simp only at h1 h4 h5 h6 h7
+      refine ⟨({ spec := (s.specs[s.jobs.length]?).getD { m := 0, p := 0 } } : Job) :: extra, ?_, ?_, ?_, ?_, h5, h6,
+        fun hh => by simp only [List.length_cons]; rw [h7 hh]⟩
       · rw [h1]; simp
       · intro j hj
         simp only [List.mem_cons] at hj
@@ -592,7 +616,7 @@ theorem ready_of_started {s : Ev} (h : Started s.jobs) (hG : GenLe s.semGen s.jo
 /-- the evaluator after `submit` of a new batch on a fresh semaphore -/
 theorem ready_after_submit {s : Ev} (nAsk : Nat) (hst : Started s.jobs) (hG : GenLe s.semGen s.jobs)
     (hW : nAsk ≤ s.W) : Ready (submitCap { s with semGen := s.semGen + 1 } nAsk).1 := by
-  obtain ⟨extra, h1, h2, h3, _, h5, h6⟩ := submitCap_spec nAsk { s with semGen := s.semGen + 1 }
+  obtain ⟨extra, h1, h2, h3, _, h5, h6, _⟩ := submitCap_spec nAsk { s with semGen := s.semGen + 1 }
   simp only at h1 h5 h6
   refine ⟨?_, ?_, ?_⟩
   · rw [h1]
@@ -617,5 +641,253 @@ theorem ready_after_submit {s : Ev} (nAsk : Nat) (hst : Started s.jobs) (hG : Ge
       · have := hG j hj; omega
       · rw [(h2 j hj).2]; omega
     omega
+
+theorem gather_batch1 (s : Ev) (rep : List Nat) : gather s false 1 rep = gatherN s 1 rep := by
+  simp [gather]
+
+theorem loop_live (strict : Bool) (target : Int) :
+    ∀ (reps : List (List Nat)) (s : Ev) (nAsk : Nat), Rep s → Started s.jobs →
+      GenLe s.semGen s.jobs → s.running.length + nAsk ≤ s.W → 1 ≤ nAsk →
+      (loop strict target s nAsk reps).2 ≠ .hang ∧ (loop strict target s nAsk reps).2 ≠ .noJobs ∧
+      (SettledStop (loop strict target s nAsk reps).2 →
+        Ready (loop strict target s nAsk reps).1 ∧ (loop strict target s nAsk reps).1.W = s.W) := by
+  intro reps
+  induction reps with
+  | nil =>
+    intro s nAsk hrep hst hG hW h1
+    unfold loop
+    dsimp only
+    split
+    · have hready := ready_after_submit nAsk hst hG (by omega)
+      obtain ⟨extra, _, _, _, _, h5, _, _⟩ := submitCap_spec nAsk { s with semGen := s.semGen + 1 }
+      simp only at h5
+      generalize submitCap { s with semGen := s.semGen + 1 } nAsk = sub at hready h5 ⊢
+      split
+      · exact ⟨by simp, by simp, fun _ => ⟨hready, h5⟩⟩
+      · exact ⟨by simp, by simp, fun h => by simp [SettledStop] at h⟩
+    · exact ⟨by simp, by simp, fun _ => ⟨ready_of_started hst hG, rfl⟩⟩
+  | cons rep rest ih =>
+    intro s nAsk hrep hst hG hW h1
+    unfold loop
+    dsimp only
+    split
+    · have hready := ready_after_submit nAsk hst hG (by omega)
+      have hrsub := rep_submitCap nAsk { s with semGen := s.semGen + 1 } (rep_cfg (s := s) rfl rfl rfl hrep)
+      obtain ⟨extra, _, _, h3, h4, h5, _, h7⟩ := submitCap_spec nAsk { s with semGen := s.semGen + 1 }
+      simp only at h4 h5
+      generalize submitCap { s with semGen := s.semGen + 1 } nAsk = sub at hready hrsub h4 h5 h7 ⊢
+      split
+      · exact ⟨by simp, by simp, fun _ => ⟨hready, h5⟩⟩
+      · next hnr =>
+        have hne : sub.1.running ≠ [] := by
+          intro e
+          have := h7 (by simpa using hnr)
+          rw [e] at h4; simp at h4; omega
+        rw [gather_batch1]
+        obtain ⟨l1, l2⟩ := gatherN_live sub.1 1 rep sub.1.semGen hrsub hready.noq hready.gen
+          (Nat.le_refl _) hready.room
+        have hnj := gatherN_noJobs sub.1 1 rep hne
+        have hlen := gatherN_rep_len sub.1 1 rep
+        have hrg := rep_gatherN sub.1 1 rep hrsub
+        generalize gatherN sub.1 1 rep = ga at l1 l2 hrg hnj hlen ⊢
+        obtain ⟨g1, g2⟩ := ga
+        cases g2 with
+        | some e =>
+          cases e with
+          | noJobs => exact absurd rfl hnj
+          | hang => exact absurd rfl l1
+          | badEnv => exact ⟨by simp, by simp, fun h => by simp [SettledStop] at h⟩
+        | none =>
+          simp only at l2 hrg hlen ⊢
+          obtain ⟨a, b, c, d⟩ := l2 trivial
+          obtain ⟨r1, r2, _⟩ := hrg trivial
+          have hl := hlen trivial
+          have hpos : 0 < sub.1.running.length := List.length_pos_iff.mpr hne
+          have hG' : GenLe g1.semGen g1.jobs := by rw [c]; exact b
+          split
+          · exact ⟨by simp, by simp, fun _ => ⟨ready_of_started a hG', by rw [d, h5]⟩⟩
+          · have := ih g1 rep.length r1 a hG' (by rw [d, h5]; omega) (by omega)
+            exact ⟨this.1, this.2.1, fun h => ⟨(this.2.2 h).1, by rw [(this.2.2 h).2, d, h5]⟩⟩
+    · exact ⟨by simp, by simp, fun _ => ⟨ready_of_started hst hG, rfl⟩⟩
+
+/-- the evaluator between two `search()` calls -/
+structure Idle (s : Ev) : Prop where
+  rep : Rep s
+  inv : AllInv s.jobs
+  running : s.running = []
+  gen : GenLe s.semGen s.jobs
+  W : 1 ≤ s.W
+
+theorem started_of_idle {s : Ev} (h : Idle s) : Started s.jobs := by
+  intro j hj
+  obtain ⟨i, hi⟩ := List.getElem?_of_mem hj
+  have := ((complete_of_rep h.rep h.running h.inv).2.2 i j hi).1
+  rcases this with e | e <;> simp [Go, e]
+
+theorem gather_all_live (s : Ev) (rep : List Nat) (hrep : Rep s) (hready : Ready s) :
+    (gather s true 0 rep).2 ≠ some .hang ∧ (gather s true 0 rep).2 ≠ some .noJobs ∧
+    ((gather s true 0 rep).2 = none →
+      GenLe s.semGen (gather s true 0 rep).1.jobs ∧ (gather s true 0 rep).1.semGen = s.semGen ∧
+      (gather s true 0 rep).1.W = s.W) := by
+  unfold gather
+  simp only [if_true]
+  split
+  · split
+    · exact ⟨by simp, by simp, fun _ => ⟨hready.gen, rfl, rfl⟩⟩
+    · exact ⟨by simp, by simp, fun h => by simp at h⟩
+  · next h0 =>
+    obtain ⟨l1, l2⟩ := gatherN_live s s.running.length rep s.semGen hrep hready.noq hready.gen
+      (Nat.le_refl _) hready.room
+    have hne : s.running ≠ [] := by intro e; rw [e] at h0; simp at h0
+    exact ⟨l1, gatherN_noJobs s _ rep hne, fun h => by obtain ⟨_, b, c, d⟩ := l2 h; exact ⟨b, c, d⟩⟩
+
+/-- **a `search()` call on an idle evaluator never hangs**, and leaves it idle when it returns -/
+theorem search_live (s : Ev) (c : Call) (reps : List (List Nat)) (drainRep : List Nat) (h : Idle s) :
+    (search s c reps drainRep).2 ≠ .hang ∧ (search s c reps drainRep).2 ≠ .noJobs ∧
+    (SettledStop (search s c reps drainRep).2 → Idle (search s c reps drainRep).1) := by
+  have hrs := rep_search s c reps drainRep h.rep
+  have hinv := allInv_search s c reps drainRep h.inv
+  have hst := started_of_idle h
+  unfold search at hrs hinv ⊢
+  dsimp only at hrs hinv ⊢
+  have hcfg : ∀ (t : Ev), t.jobs = s.jobs → t.running = s.running → t.results = s.results →
+      t.semGen = s.semGen → t.W = s.W →
+      Rep t ∧ Started t.jobs ∧ GenLe t.semGen t.jobs ∧ t.running.length + t.W ≤ t.W ∧ t.W = s.W ∧
+      1 ≤ t.W := by
+    intro t e1 e2 e3 e4 e5
+    refine ⟨rep_cfg e1 e2 e3 h.rep, by rw [e1]; exact hst, by rw [e1, e4]; exact h.gen, ?_, e5,
+      by rw [e5]; exact h.W⟩
+    rw [e2, h.running]; simp
+  have h2 := hcfg (setTimeout (if c.strict = true then
+      { s with maxSub := c.maxEvals, offset := (s.results.length : Int) } else { s with maxSub := -1 })
+      c.timeout)
+    (by unfold setTimeout; split <;> rfl) (by unfold setTimeout; split <;> rfl)
+    (by unfold setTimeout; split <;> rfl) (by unfold setTimeout; split <;> rfl)
+    (by unfold setTimeout; split <;> rfl)
+  generalize setTimeout (if c.strict = true then
+      { s with maxSub := c.maxEvals, offset := (s.results.length : Int) } else { s with maxSub := -1 })
+      c.timeout = s2 at h2 hrs hinv ⊢
+  obtain ⟨r2, st2, g2, w2, e2, w1⟩ := h2
+  have hl := loop_live c.strict (if c.maxEvals < 0 then c.maxEvals else c.maxEvals + numEvals c.strict s2)
+    reps s2 s2.W r2 st2 g2 w2 w1
+  have hlr := rep_loop c.strict (if c.maxEvals < 0 then c.maxEvals else c.maxEvals + numEvals c.strict s2)
+    reps s2 s2.W r2
+  generalize loop c.strict (if c.maxEvals < 0 then c.maxEvals else c.maxEvals + numEvals c.strict s2)
+    s2 s2.W reps = lp at hl hlr hrs hinv ⊢
+  obtain ⟨l1, l2⟩ := lp
+  obtain ⟨hl1, hl0, hl2⟩ := hl
+  simp only at hl1 hl0 hl2 hlr hrs hinv ⊢
+  have close_nil : ∀ (t : Ev), t.running = [] → (close t []).1 = t := by
+    intro t ht; unfold close; simp [ht]
+  have settled_case : ∀ (st : Stop), l2 = st → SettledStop st →
+      ((if numSubmitted l1 > numGathered l1 then
+          match (gather l1 true 0 drainRep).2 with
+          | some GErr.noJobs => ((gather l1 true 0 drainRep).1, Stop.noJobs)
+          | some GErr.hang => ((gather l1 true 0 drainRep).1, Stop.hang)
+          | some GErr.badEnv => ((gather l1 true 0 drainRep).1, Stop.badEnv)
+          | none =>
+            if numSubmitted (gather l1 true 0 drainRep).1 > numGathered (gather l1 true 0 drainRep).1 then
+              ((gather l1 true 0 drainRep).1, Stop.hang)
+            else ((close (gather l1 true 0 drainRep).1 []).1, st)
+        else ((close l1 []).1, st)).2 ≠ .hang) ∧
+      ((if numSubmitted l1 > numGathered l1 then
+          match (gather l1 true 0 drainRep).2 with
+          | some GErr.noJobs => ((gather l1 true 0 drainRep).1, Stop.noJobs)
+          | some GErr.hang => ((gather l1 true 0 drainRep).1, Stop.hang)
+          | some GErr.badEnv => ((gather l1 true 0 drainRep).1, Stop.badEnv)
+          | none =>
+            if numSubmitted (gather l1 true 0 drainRep).1 > numGathered (gather l1 true 0 drainRep).1 then
+              ((gather l1 true 0 drainRep).1, Stop.hang)
+            else ((close (gather l1 true 0 drainRep).1 []).1, st)
+        else ((close l1 []).1, st)).2 ≠ .noJobs) ∧
+      (∀ (res : Ev × Stop), res = (if numSubmitted l1 > numGathered l1 then
+          match (gather l1 true 0 drainRep).2 with
+          | some GErr.noJobs => ((gather l1 true 0 drainRep).1, Stop.noJobs)
+          | some GErr.hang => ((gather l1 true 0 drainRep).1, Stop.hang)
+          | some GErr.badEnv => ((gather l1 true 0 drainRep).1, Stop.badEnv)
+          | none =>
+            if numSubmitted (gather l1 true 0 drainRep).1 > numGathered (gather l1 true 0 drainRep).1 then
+              ((gather l1 true 0 drainRep).1, Stop.hang)
+            else ((close (gather l1 true 0 drainRep).1 []).1, st)
+        else ((close l1 []).1, st)) → SettledStop res.2 →
+        GenLe res.1.semGen res.1.jobs ∧ res.1.W = s.W) := by
+    intro st hst' hsettled
+    subst hst'
+    obtain ⟨hready, hw⟩ := hl2 hsettled
+    have hr1 := hlr hsettled
+    split
+    · obtain ⟨ga1, ga0, ga2⟩ := gather_all_live l1 drainRep hr1 hready
+      have hrg := rep_gather l1 true 0 drainRep hr1
+      generalize gather l1 true 0 drainRep = ga at ga1 ga0 ga2 hrg ⊢
+      obtain ⟨g1, gerr⟩ := ga
+      cases gerr with
+      | some e =>
+        cases e with
+        | noJobs => exact absurd rfl ga0
+        | hang => exact absurd rfl ga1
+        | badEnv => exact ⟨by simp, by simp, fun res hres hs => by subst hres; simp [SettledStop] at hs⟩
+      | none =>
+        simp only at ga2 hrg ⊢
+        obtain ⟨ra, rb⟩ := hrg trivial
+        have rb' := rb trivial
+        have hno : ¬ (numSubmitted g1 > numGathered g1) := by
+          simp only [numSubmitted, numGathered]
+          have := ra.count
+          rw [rb'] at this
+          simp only [List.length_nil, Nat.add_zero] at this
+          omega
+        rw [if_neg hno, close_nil g1 rb']
+        obtain ⟨x, y, z⟩ := ga2 trivial
+        have hns : l2 ≠ Stop.hang ∧ l2 ≠ Stop.noJobs := by
+          rcases hsettled with e | e | e <;> rw [e] <;> simp
+        refine ⟨hns.1, hns.2, fun res hres _ => ?_⟩
+        subst hres
+        exact ⟨by simp only; rw [y]; exact x, by simp only; rw [z, hw, e2]⟩
+    · next hd =>
+      simp only [numSubmitted, numGathered] at hd
+      have hrun : l1.running = [] := List.eq_nil_of_length_eq_zero (by have := hr1.count; omega)
+      rw [close_nil l1 hrun]
+      have hns : l2 ≠ Stop.hang ∧ l2 ≠ Stop.noJobs := by
+        rcases hsettled with e | e | e <;> rw [e] <;> simp
+      refine ⟨hns.1, hns.2, fun res hres _ => ?_⟩
+      subst hres
+      exact ⟨hready.gen, by simp only; rw [hw, e2]⟩
+  cases l2 with
+  | noJobs => exact absurd rfl hl0
+  | hang => exact absurd rfl hl1
+  | badEnv => exact ⟨by simp, by simp, fun hs => by simp [SettledStop] at hs⟩
+  | envExhausted => exact ⟨by simp, by simp, fun hs => by simp [SettledStop] at hs⟩
+  | budget =>
+    obtain ⟨a, a0, b⟩ := settled_case .budget rfl (Or.inl rfl)
+    simp only at hrs hinv ⊢
+    refine ⟨a, a0, fun hs => ?_⟩
+    obtain ⟨q1, q2⟩ := hrs hs
+    obtain ⟨q3, q4⟩ := b _ rfl hs
+    exact ⟨q1, hinv, q2, q3, Nat.le_trans h.W (Nat.le_of_eq q4.symm)⟩
+  | cap =>
+    obtain ⟨a, a0, b⟩ := settled_case .cap rfl (Or.inr (Or.inl rfl))
+    simp only at hrs hinv ⊢
+    refine ⟨a, a0, fun hs => ?_⟩
+    obtain ⟨q1, q2⟩ := hrs hs
+    obtain ⟨q3, q4⟩ := b _ rfl hs
+    exact ⟨q1, hinv, q2, q3, Nat.le_trans h.W (Nat.le_of_eq q4.symm)⟩
+  | timeout =>
+    obtain ⟨a, a0, b⟩ := settled_case .timeout rfl (Or.inr (Or.inr rfl))
+    simp only at hrs hinv ⊢
+    refine ⟨a, a0, fun hs => ?_⟩
+    obtain ⟨q1, q2⟩ := hrs hs
+    obtain ⟨q3, q4⟩ := b _ rfl hs
+    exact ⟨q1, hinv, q2, q3, Nat.le_trans h.W (Nat.le_of_eq q4.symm)⟩
+
+theorem idle_init (W : Nat) (hW : 1 ≤ W) (specs : List Spec) : Idle (init W true specs) :=
+  ⟨rep_init W true specs, allInv_init W true specs, rfl, by intro j hj; simp [init] at hj, hW⟩
+
+theorem runSearches_idle : ∀ (hist : List SCall) (s : Ev), Idle s →
+    (∀ st ∈ (runSearches s hist).2, SettledStop st) → Idle (runSearches s hist).1
+  | [], s, h, _ => h
+  | sc :: rest, s, h, hs => by
+    simp only [runSearches] at hs ⊢
+    have h1 := (search_live s sc.call sc.reps sc.drainRep h).2.2 (hs _ (List.mem_cons_self ..))
+    exact runSearches_idle rest _ h1 (fun st hst => hs st (List.mem_cons_of_mem _ hst))
 
 end DH.Timeout
